@@ -49,6 +49,21 @@ func main() {
 	switch os.Args[1] {
 	case "check":
 		os.Exit(cmdCheck(os.Args[2:]))
+	case "ssa":
+		// debug: goatverif ssa <repo> <relpkg> <funcname-substring>
+		if len(os.Args) < 5 {
+			usage()
+		}
+		p, err := Load(LoadOpts{Repo: os.Args[2]})
+		if err != nil {
+			fmt.Println(err)
+			os.Exit(1)
+		}
+		for _, f := range p.PkgFuncs(os.Args[3]) {
+			if strings.Contains(fname(f), os.Args[4]) {
+				f.WriteTo(os.Stdout)
+			}
+		}
 	case "list":
 		var ids []string
 		for id := range registry {
